@@ -216,7 +216,7 @@ func genB(t *rapid.T) Case {
 func TestC09b(t *testing.T) {
 	core.Run(t, core.Spec[Case]{
 		Property: "C09", Sub: "b",
-		Rule: "random histories of 1..25 events over 3-5 agents (ids from the whole 32-bit range incl. >= 2^31, 1..n registered at start; database file, a third each: fresh / created by the current code and opened again / a copy of the committed testdata/golden-schema.db made by the unchanged tree's db.DatabaseNew - labels db:fresh|existed|golden) with events reg, connect(p,c) for any pair incl. self / ancestor / an id never seen, failed connect, disconnect(p,x) incl. non-children, unknown ids and Removed=FALSE, exit, killdate, markdead, markalive, and reopen (~1 event in 20: a new Teamserver on the same file restores sessions and links as Start() does, then the history goes on - labels db:reopened, pivot-events-after-reopen, re-parenting-on-existing-db; a reopen is only performed while every stored link joins two active sessions); a violation that occurs on the golden file only, while its schema differs from a fresh one, is reported as schema|existing-database-differs-from-fresh|<tables>; one history in three starts with agent 0 linking 2..n-1 (+1) children and possibly dying, so that deaths with 3 and more links are frequent (labels death-links:0/1/2/3+); same oracle as (a). Non-trivial: a second link, a re-parenting, or a self/ancestor connect; distinct = (those four flags, links at death, death of a child, length bucket, child disconnect)",
+		Rule: "random histories of 1..25 events over 3-5 agents (ids from the whole 32-bit range incl. >= 2^31, 1..n registered at start; database file, a third each: fresh / created by the current code and opened again / a copy of the committed testdata/golden-schema.db made by the unchanged tree's db.DatabaseNew - labels db:fresh|existed|golden) with events reg, connect(p,c) for any pair incl. self / ancestor / an id never seen, failed connect, disconnect(p,x) incl. non-children, unknown ids and Removed=FALSE, exit, killdate, markdead, markalive, and reopen (~1 event in 20: a new Teamserver on the same file restores sessions and links as Start() does, then the history goes on - labels db:reopened, pivot-events-after-reopen, re-parenting-on-existing-db; a reopen is only performed while every stored link joins two active sessions); a violation that occurs on the golden file only, while its schema differs from a fresh one, is reported as schema|existing-database-differs-from-fresh|<tables>; one history in three starts with agent 0 linking 2..n-1 (+1) children and possibly dying, so that deaths with 3 and more links are frequent (labels death-links:0/1/2/3+); same oracle as (a). Non-trivial: a second link, a re-parenting, or a self/ancestor connect; distinct = (those four flags, links at death, death of a child, length bucket, child disconnect, reopened)",
 		Gen:   genB, Check: checkCase, Classify: classify,
 		Assumptions: assumptions,
 	})
